@@ -3,6 +3,7 @@ import Model.Feed
 import Model.History
 import Model.Select
 import Model.Style
+import Model.Splicer
 
 /-
   `ui/ui.go`: `State.Update` and what it calls (`switchTo`, `loadSurroundings`, `subcommand`,
@@ -27,8 +28,8 @@ inductive CK where
   | reply (parent : Option U)
   | generic
 
-/-- A `pub.Container` as the UI holds it: a collection page plus its element constructor. -/
-structure Container where
+/-- A collection as a `pub.Container`: a page plus its element constructor. -/
+structure CollC where
   page : Pub.Page
   kind : CK
 
@@ -37,27 +38,43 @@ def construct (w : World) : CK → E → T
   | .reply p => replyItem w p
   | .generic => genericItem w
 
-/-- `Container.Harvest(amount, start)`: items, next container, next starting point. -/
-def Container.harvest (w : World) (c : Container) (amount start : Nat) : List T × Option Container × Nat :=
+/-- `Collection.Harvest(amount, start)`: items, next container, next starting point. -/
+def CollC.harvest (w : World) (c : CollC) (amount start : Nat) : List T × Option CollC × Nat :=
   let r := Coll.harvest (loadPage w) c.page amount start
   (r.out.map (deliver (construct w c.kind)),
    r.cont.map (fun pc => { c with page := pc.1 }),
    match r.cont with | some pc => pc.2 | none => 0)
 
+/-- A `pub.Container` as the UI holds it: a collection, or a feed (`splicer.Splicer`) over
+    collections. -/
+inductive Container where
+  | coll (c : CollC)
+  | feed (s : List (Splicer.Source CollC T))
+
+/-- `Container.Harvest(amount, start)`. -/
+def Container.harvest (w : World) (c : Container) (amount start : Nat) : List T × Option Container × Nat :=
+  match c with
+  | .coll cc =>
+    let r := cc.harvest w amount start
+    (r.1, r.2.1.map Container.coll, r.2.2)
+  | .feed s =>
+    let r := Splicer.harvest (fun cc q st => cc.harvest w q st) Item.timestamp s amount start
+    (r.1, r.2.map Container.feed, 0)
+
 /-- `Tangible.Children()`. -/
 def children : T → Option Container
   | .post p => match p.comments with
-    | .ok c => some ⟨c.page, .reply p.id⟩
+    | .ok c => some (.coll ⟨c.page, .reply p.id⟩)
     | .error _ => none
   | .actor a => match a.posts with
-    | .ok c => some ⟨c.page, .outbox a.id⟩
+    | .ok c => some (.coll ⟨c.page, .outbox a.id⟩)
     | .error _ => none
   | .activity a => match a.target with
     | .post p => match p.comments with
-      | .ok c => some ⟨c.page, .reply p.id⟩
+      | .ok c => some (.coll ⟨c.page, .reply p.id⟩)
       | .error _ => none
     | .actor ac => match ac.posts with
-      | .ok c => some ⟨c.page, .outbox ac.id⟩
+      | .ok c => some (.coll ⟨c.page, .outbox ac.id⟩)
       | .error _ => none
     | .failure => none
   | _ => none
@@ -103,6 +120,7 @@ structure State where
   buffer : Str := []
   hist : History.H Page := {}
   context : Nat           -- config.Parsed.Network.Context (≥ 0 by Config.Safe)
+  feeds : List (Str × List Str) := []     -- config.Parsed.Feeds
 
 /-- Replace the current page (pages are pointers in Go; the loaders mutate them in place). -/
 def setCurrent (s : State) (p : Page) : State :=
@@ -164,7 +182,7 @@ def switchTo (w : World) (s : State) : Target → Except Panic State
 
 /-- What `pub.New` / `FetchUserInput` returned, as a `switchTo` argument. -/
 def targetOfItem : Item → Target
-  | .collection c => .container ⟨c.page, .generic⟩
+  | .collection c => .container (.coll ⟨c.page, .generic⟩)
   | x => .item x
 
 /-- `pub.FetchUserInput(text)`: webfinger handles and file paths are outside the generated worlds
@@ -184,11 +202,28 @@ def openItem (w : World) (s : State) (it : Item) : Except Panic State :=
   | .error e => .error e
   | .ok s' => .ok { s' with mode := .normal, buffer := [] }
 
-/-- `subcommand(name, argument)`; `feeds` are the configured feed names (none in the generated
-    worlds: `:feed x` reports "not a known feed" and returns to normal mode). -/
+/-- `splicer.NewSplicer(inputs)`: one source per input — the children of what the input resolves
+    to, or the collection itself. -/
+def newSplicer (w : World) (inputs : List Str) : List (Splicer.Source CollC T) :=
+  inputs.map fun input =>
+    let page : Option CollC := match fetchUserInput w input with
+      | .collection c => some ⟨c.page, .generic⟩
+      | x => match children x with
+        | some (.coll cc) => some cc
+        | _ => none
+    { basepoint := 0, page := page, elements := [] }
+
+/-- `subcommand(name, argument)`: `open` and `feed`; an unknown feed or command shows a message
+    and returns to normal mode. -/
 def subcommand (w : World) (s : State) (name arg : Str) : Except Panic State :=
   if name = "open".toList then openItem w s (fetchUserInput w arg)
-  else if name = "feed".toList then .ok { s with mode := .normal, buffer := [] }
+  else if name = "feed".toList then
+    match s.feeds.find? (fun f => f.1 = arg) with
+    | none => .ok { s with mode := .normal, buffer := [] }
+    | some (_, inputs) =>
+      match switchTo w { s with mode := .loading, buffer := [] } (.container (.feed (newSplicer w inputs))) with
+      | .error e => .error e
+      | .ok s' => .ok { s' with mode := .normal, buffer := [] }
   else .ok { s with mode := .normal, buffer := [] }      -- "Failed to run command", then normal
 
 /-- `strings.SplitN(buffer, " ", 2)`. -/
@@ -282,8 +317,8 @@ def run (w : World) (s : State) : List Nat → Except Panic State
     | .error e => .error e
 
 /-- `NewState` followed by `Subcommand("open", arg)`, settled. -/
-def start (w : World) (context : Nat) (arg : Str) : Except Panic State :=
-  openItem w { context := context } (fetchUserInput w arg)
+def start (w : World) (context : Nat) (arg : Str) (feeds : List (Str × List Str) := []) : Except Panic State :=
+  openItem w { context := context, feeds := feeds } (fetchUserInput w arg)
 
 end Ui
 
